@@ -20,7 +20,7 @@ RULE = ("a fake usb1 module (scripted per the python-libusb1 documentation: shor
         "non-trivial = at least one transfer checked; distinct = distinct (kind, parameters) signatures")
 ASSUMPTIONS = ["the fake backend is the specification of a conforming libusb (python-libusb1 README/docstrings)", "transport_timeout_s=0 maps to libusb's 0 = no timeout; only the value handed over is checked"]
 SHARDS = {"quick": 8, "thorough": 16}
-TIME_BUDGET = {"quick": 60, "thorough": 600}
+TIME_BUDGET = {"quick": 300, "thorough": 1800}
 FLOORS = {"quick": {"transfers_checked": 3000, "faults_injected": 150, "sessions": 40, "connects_checked": 100, "distinct": 100}, "thorough": {"transfers_checked": 100000, "faults_injected": 3000, "sessions": 1000}}
 
 
